@@ -150,6 +150,8 @@ func runLineAfter(ti, to jsonline.Template, before, line []byte) (*recWriter, er
 // in turn (what jl does for a stream); the model and the oracle judge every line on its own, so anything a
 // line inherits from the lines before it — after an error, on the Nth use, after a particular value — shows as
 // a difference. Lines that are blank or hold a line feed are left out (they are not one scanned line).
+var lineBatchCount int
+
 func emitLineBatch(cw *caseWriter, prop string, ti, to []colDesc, lines [][]byte) {
 	var keep [][]byte
 	for _, l := range lines {
@@ -172,10 +174,37 @@ func emitLineBatch(cw *caseWriter, prop string, ti, to []colDesc, lines [][]byte
 	if p := guard(func() { imp = buildTemplate(ti).GetImporter(&in); exp = buildTemplate(to).GetExporter(w) }); p != "" {
 		return
 	}
+	// every other batch reads ALL the rows first and keeps them, then exports them in turn (rows of one template
+	// alive together must not disturb one another)
+	lineBatchCount++
+	var held []jsonline.Row
+	var heldErr []error
+	if lineBatchCount%2 == 0 {
+		if p := guard(func() {
+			for range keep {
+				if !imp.Import() {
+					held, heldErr = append(held, nil), append(heldErr, fmt.Errorf("no line scanned"))
+					continue
+				}
+				row, e := imp.GetRow()
+				held, heldErr = append(held, row), append(heldErr, e)
+			}
+		}); p != "" {
+			held = nil
+		}
+	}
 	for i, l := range keep {
 		w.writes = nil
 		var err error
 		pan := guard(func() {
+			if held != nil {
+				if heldErr[i] != nil {
+					err = heldErr[i]
+					return
+				}
+				err = exp.Export(held[i])
+				return
+			}
 			if !imp.Import() {
 				err = fmt.Errorf("no line scanned")
 				return
@@ -346,6 +375,9 @@ func emitLine(cw *caseWriter, prop string, ti, to []colDesc, line []byte, nontri
 	out := lineOutcome(w, err, pan)
 	cw.count("line:" + strings.SplitN(out, " ", 3)[0] + ":" + strings.SplitN(out+" ", " ", 3)[1][:min(12, len(strings.SplitN(out+" ", " ", 3)[1]))])
 	cw.emit(prop+" "+descStr(ti)+" | "+descStr(to)+" | "+string(line), nontrivial, "line", prop, descStr(ti), descStr(to), hxs(string(line)), extStr(ext), out)
+	if jlRouteWanted(line) {
+		emitLineJl(cw, prop, ti, to, line)
+	}
 	return out
 }
 
@@ -360,6 +392,29 @@ func emitEmit(cw *caseWriter, prop string, to []colDesc, mk func() interface{}, 
 	out := lineOutcome(w, err, pan)
 	cw.count("emit:" + strings.SplitN(out, " ", 2)[0])
 	cw.emit(prop+" emit "+descStr(to)+" | "+s, nontrivial, "emit", prop, descStr(to), s, extStr(ext), out)
+	return out
+}
+
+// emitEmitSame: a row made by the rendering template ITSELF, changed afterwards (mk gets the template), and
+// exported by an exporter of that same template object.
+func emitEmitSame(cw *caseWriter, prop string, to []colDesc, mk func(t jsonline.Template) interface{}) string {
+	w := &recWriter{failAt: -1}
+	var err error
+	var s string
+	ext := map[string]string{}
+	pan := guard(func() {
+		t := buildTemplate(to)
+		v := mk(t)
+		s = dynStr(v)
+		extForValue(v, ext)
+		err = t.GetExporter(w).Export(v)
+	})
+	if s == "" {
+		return ""
+	}
+	out := lineOutcome(w, err, pan)
+	cw.count("emit-same:" + strings.SplitN(out, " ", 2)[0])
+	cw.emit(prop+" emit (row of the same template) "+descStr(to)+" | "+s, true, "emit", prop, descStr(to), s, extStr(ext), out)
 	return out
 }
 
@@ -702,7 +757,12 @@ func orderCols(r *rng, depth int) []colDesc {
 		case 2:
 			f = "numeric"
 		}
-		cols = append(cols, colDesc{name: names[i], format: f, ty: "none"})
+		ty := "none"
+		if r.chance(1, 4) {
+			// a declared raw type: the column still comes out at its place, null when the input lacks it
+			ty = pick(r, tyNames)
+		}
+		cols = append(cols, colDesc{name: names[i], format: f, ty: ty})
 	}
 	return cols
 }
@@ -958,6 +1018,32 @@ func genC04(cw *caseWriter, seed uint64, tier string) {
 			}
 		}
 	}
+	// a row made by the output template itself whose cell was replaced afterwards by a Value of ANOTHER format
+	// (SetValue, ImportAtKey of a Value), exported through that same template: the declared format still rules
+	for _, fo := range []string{"numeric", "boolean", "binary", "date", "datetime", "timestamp", "string"} {
+		for _, ff := range []string{"string", "auto", "numeric", "hidden"} {
+			for _, x := range []interface{}{"masked", 1.5, true, "2021-09-24", []interface{}{1}, "AQ=="} {
+				fo, ff, x := fo, ff, x
+				for _, how := range []int{0, 1, 2} {
+					how := how
+					emitEmitSame(cw, "C04", []colDesc{{name: "s", format: "string", ty: "none"}, {name: "c", format: fo, ty: "none"}}, func(t jsonline.Template) interface{} {
+						row := t.CreateRowEmpty()
+						row.Set("s", "b")
+						switch how {
+						case 0:
+							row.SetValue("c", jsonline.NewValue(x, formatByName[ff], nil))
+						case 1:
+							_ = row.ImportAtKey("c2", jsonline.NewValue(x, formatByName[ff], nil))
+							row.SetValueAtIndex(1, jsonline.NewValue(x, formatByName[ff], nil))
+						default:
+							row.Set("c", x)
+						}
+						return row
+					})
+				}
+			}
+		}
+	}
 	// date / datetime / string rendering of instants next to the year 0000 and 9999 boundaries, under process
 	// zones on both sides of Greenwich (the rendered year is the year in the rendering zone)
 	saved := time.Local
@@ -1001,17 +1087,32 @@ func emitRoundTrip(cw *caseWriter, line []byte, inDomain bool) {
 	}
 	cw.count("rtrip:" + strings.SplitN(first, " ", 2)[0] + ":dom" + dom)
 	cw.emit("rtrip "+string(line), inDomain, "rtrip", "C02", hxs(string(line)), dom, extStr(ext), first, second)
+	if jlRouteWanted(line) {
+		emitRoundTripJl(cw, line, inDomain)
+	}
 }
 
 // emitRoundTripBatch: several lines through ONE untemplated importer/exporter pair (what jl does with a
 // file); each line's outcome is reported as an `rtrip` case of its own, so a line must come out as it does
 // alone whatever preceded it.
-func emitRoundTripBatch(cw *caseWriter, lines [][]byte) {
+func emitRoundTripBatch(cw *caseWriter, lines [][]byte) { emitRoundTripBatchWith(cw, lines, nil) }
+
+// emitRoundTripBatchWith: the same with a line that is rejected (breaker) fed after the first line of each pass:
+// it costs one reported error and nothing else.
+func emitRoundTripBatchWith(cw *caseWriter, lines [][]byte, breaker []byte) {
+	wantErr := 0
+	if breaker != nil {
+		wantErr = 1
+	}
 	stream := func(ls [][]byte) (*recWriter, int, string) {
 		var in bytes.Buffer
-		for _, l := range ls {
+		for i, l := range ls {
 			in.Write(l)
 			in.WriteByte('\n')
+			if i == 0 && breaker != nil {
+				in.Write(breaker)
+				in.WriteByte('\n')
+			}
 		}
 		w := &recWriter{failAt: -1}
 		nerr := 0
@@ -1026,7 +1127,7 @@ func emitRoundTripBatch(cw *caseWriter, lines [][]byte) {
 		return w, nerr, pan
 	}
 	w, nerr, pan := stream(lines)
-	if pan != "" || nerr != 0 || len(w.writes) != len(lines) {
+	if pan != "" || nerr != wantErr || len(w.writes) != len(lines) {
 		cw.count("rtrip:batch-broken")
 		cw.emit("rtrip batch "+string(lines[0]), true, "rtrip", "C02", hxs(string(lines[0])), "1", "-",
 			fmt.Sprintf("err syntax w=%d %s", len(w.writes), hxs(string(w.all()))), "-")
@@ -1039,7 +1140,7 @@ func emitRoundTripBatch(cw *caseWriter, lines [][]byte) {
 	w2, nerr2, pan2 := stream(outs)
 	for i, l := range lines {
 		second := "-"
-		if pan2 == "" && nerr2 == 0 && len(w2.writes) == len(lines) {
+		if pan2 == "" && nerr2 == wantErr && len(w2.writes) == len(lines) {
 			second = fmt.Sprintf("ok %s w=1", hxs(string(w2.writes[i])))
 		} else {
 			second = fmt.Sprintf("err syntax w=%d -", len(w2.writes))
@@ -1148,7 +1249,11 @@ func genC02(cw *caseWriter, seed uint64, tier string) {
 		if r.chance(1, 3) { // a line sharing keys with its predecessor in another order
 			batch = append(batch, []byte(`{"b":2,"a":{"y":[],"x":{}}}`), []byte(`{"a":1,"c":[{}],"b":[]}`))
 		}
-		emitRoundTripBatch(cw, batch)
+		if r.chance(1, 2) {
+			emitRoundTripBatchWith(cw, batch, []byte(pick(r, []string{`{"a":`, `[1]`, `{"a":1} x`, `}`, `{"a":1,}`, `nul`, `{"k":"unterminated}`})))
+		} else {
+			emitRoundTripBatch(cw, batch)
+		}
 	}
 }
 
@@ -1261,7 +1366,9 @@ func genC16(cw *caseWriter, seed uint64, tier string) {
 		`{'a':1}`, `{a:1}`, `{"a":01}`, `{"a":1.}`, `{"a":.5}`, `{"a":+1}`, `{"a":-}`, `{"a":1e}`, `{"a":1e+}`, `{"a":tru}`, `{"a":nul}`, `{"a":truex}`, `{"a":[1,]}`, `{"a":[1 2]}`, `{"a":[}`, `{"a":]}`,
 		`{"a":{}}}`, `{"a":"\x"}`, `{"a":"\u12"}`, `{"a":"\u12G4"}`, "{\"a\":\"\x01\"}", "{\"a\":\"\n\"}", "\xef\xbb\xbf{}", "{}\x00", "{\"a\":1}\x00", "\x00{}", `{"a":"unterminated}`, `{"a":1}}`, `{{}}`, `{"a":{"b":1}`,
 		`{"a":1}//c`, `{"a":1}/**/`, `{"a":NaN}`, `{"a":Infinity}`, `{"a":0x10}`, `{"a":1_000}`, `{"a":"\ud800"}`, "{\"a\":\"\xff\"}", `{"a":"\/"}`, `{"a":"\'"}`, `{"\u0061":1}`, "{\t\"a\"\t:\t1\t}", "{\r\"a\":1}", "{\"a\":1}\r", "\r{\"a\":1}", "{\"a\":1}\r\r", "{\"a\":1} \r ", "\t\r {\"a\":1}\r\t\r", "\r\r{}\r\r", "{\"a\":1}\"", "{\"a\":1}t", "{\"a\":1} fals", "{\"a\":1}-", "{\"a\":1}1e", "{\"a\":1}0.", "{\"a\":1}\"abc",
-		"{\"a\"\x0b:1}", "{\"a\":1}\x0c", "{\xa0}", `{"a":1,"a":2}`, `{"":1}`, `{"a":[[[[[[[[[[1]]]]]]]]]]}`, `{"a":-0}`, `{"a":-01}`, `{"a":1E400}`, `{"a":"` + strings.Repeat("x", 70000) + `"}`}
+		"{\"a\"\x0b:1}", "{\"a\":1}\x0c", "{\xa0}", `{"a":1,"a":2}`,
+		// a repeated name whose occurrences are of different kinds, at top level and below
+		`{"a":{"x":1},"a":2}`, `{"a":2,"a":{"x":1}}`, `{"a":[1],"a":{"x":1}}`, `{"a":{"x":1},"a":[1]}`, `{"a":{"x":1},"a":null}`, `{"a":{"x":1},"a":"s"}`, `{"a":{"x":1},"a":{"y":2}}`, `{"o":{"a":{"x":1},"a":"s"}}`, `{"l":[{"a":{"x":1},"a":true}]}`, `{"a":null,"a":{"x":1},"a":3}`, `{"":1}`, `{"a":[[[[[[[[[[1]]]]]]]]]]}`, `{"a":-0}`, `{"a":-01}`, `{"a":1E400}`, `{"a":"` + strings.Repeat("x", 70000) + `"}`}
 	for _, h := range hand {
 		emitAccept(cw, nil, []byte(h), true)
 	}
@@ -1292,7 +1399,12 @@ func genC16(cw *caseWriter, seed uint64, tier string) {
 	}
 	// declared columns that convert / do not convert
 	typed := []colDesc{{name: "a", format: "numeric", ty: "int"}, {name: "d", format: "date", ty: "none"}}
-	for _, h := range []string{`{"a":1}`, `{"a":"x"}`, `{"a":1.5}`, `{"a":null}`, `{"d":"2021-09-24"}`, `{"d":"nope"}`, `{"a":1,"d":"2021-09-24","z":[]}`, `{"a":"x"} trailing`, `{"a":1} trailing`, `{"z":1,"a":"x"}`} {
+	for _, h := range []string{`{"a":1}`, `{"a":"x"}`, `{"a":1.5}`, `{"a":null}`, `{"d":"2021-09-24"}`, `{"d":"nope"}`,
+		// days the calendar does not have (century years that are not leap years, day 30 of February, day 31 of a
+		// 30-day month, month 0 and 13, day 0) next to days it has
+		`{"d":"1900-02-29"}`, `{"d":"2100-02-29"}`, `{"d":"2000-02-29"}`, `{"d":"2021-02-29"}`, `{"d":"2020-02-29"}`, `{"d":"0000-02-29"}`, `{"d":"0100-02-29"}`, `{"d":"2000-02-30"}`, `{"d":"2021-04-31"}`, `{"d":"2021-06-31"}`,
+		`{"d":"2021-00-10"}`, `{"d":"2021-13-01"}`, `{"d":"2021-01-00"}`, `{"d":"2021-12-32"}`, `{"d":"2021-12-31"}`, `{"d":"9999-12-31"}`, `{"d":"2021-1-01"}`, `{"d":"2021-01-01 "}`, `{"d":"+2021-01-01"}`,
+		`{"a":{"x":1},"a":2}`, `{"z":{"x":1},"z":2,"a":1}`, `{"a":1,"d":"2021-09-24","z":[]}`, `{"a":"x"} trailing`, `{"a":1} trailing`, `{"z":1,"a":"x"}`} {
 		emitAccept(cw, typed, []byte(h), true)
 	}
 	n := 4000
